@@ -4,7 +4,7 @@ properties, known-finding signatures, vacuity rules."""
 ALG = {'And', 'Or', 'Xor', 'AndNot', 'AndS', 'OrS', 'XorS', 'AndNotS', 'AndCard', 'OrCard', 'Intersects'}
 MUT = {'Add', 'AddInt', 'CheckedAdd', 'Remove', 'CheckedRemove', 'AddMany', 'AddRange', 'RemoveRange', 'Flip', 'Clear',
        'RunOptimize', 'SetCOW', 'Detach', 'Clone', 'New', 'Build', 'BitmapOf'}
-QRY = {'Contains', 'IsEmpty', 'Card', 'Min', 'Max', 'Rank', 'Select', 'CardInRange', 'IntersectsInterval', 'Equals',
+QRY = {'Stats', 'String', 'Contains', 'IsEmpty', 'Card', 'Min', 'Max', 'Rank', 'Select', 'CardInRange', 'IntersectsInterval', 'Equals',
        'ToArray', 'ChecksumEq', 'ChecksumRT'}
 NBR = {'NextValue', 'PreviousValue', 'NextAbsentValue', 'PreviousAbsentValue'}
 AGG = {'FastOr', 'HeapOr', 'ParOr', 'ParHeapOr', 'FastAnd', 'ParAnd', 'HeapXor', 'AndAny'}
@@ -191,6 +191,7 @@ def c01(tier):
         'phases': [
             {'kind': 'replay', 'model': M('pairs_S6', 'pairs', 'S6'), 'kinds': ALLKINDS[:8], 'sample': 0.004 if q else 0.08},
             {'kind': 'drive', 'profile': 'algebra', 'traces': 160 if q else 3000, 'steps': 40},
+            {'kind': 'drive', 'profile': 'kernel', 'traces': 900 if q else 20000, 'steps': 0},
         ],
     }
 
